@@ -542,4 +542,131 @@ theorem src_adaptative_busy_wait (fuel : Nat) (env : Env) (inp : List Val) (W : 
     · rfl
     · intro _; bw_abs []
 
+/-! ## `urcu_wait_add(queue, node)`
+
+No label of `Handshake/WaitNode.lean` (the wait queue is a wfstack, model `Wfs/`): the function is
+`return cds_wfs_push(&queue->stack, &node->node)` – its events are exactly those of `_cds_wfs_push` run with these two
+arguments, and the result is forwarded. -/
+
+/-- the environment in which the callee runs -/
+def waitAddEnv (env : Env) (Q N : Loc) : Env :=
+  { vars := bindParams ["u_stack", "node"] [.ptr (.field Q "stack"), .ptr (.field N "node")], priv := env.priv }
+
+theorem src_wait_add (fuel : Nat) (env : Env) (inp : List Val) (Q N : Loc)
+    (hq : env.vars "queue" = some (.ptr Q)) (hn : env.vars "node" = some (.ptr N)) (o : Out)
+    (ho : exec fuel «_cds_wfs_push» (waitAddEnv env Q N) inp = .ok o) :
+    (∀ v, o.ctl = .ret (some v) →
+      ∃ out, exec fuel «urcu_wait_add» env inp = .ok out ∧ out.events = o.events ∧ out.inp = o.inp ∧
+        out.ctl = .ret (some v) ∧ out.env.priv = o.env.priv) ∧
+    (o.ctl = .blocked ∨ o.ctl = .fuel →
+      ∃ out, exec fuel «urcu_wait_add» env inp = .ok out ∧ out.events = o.events ∧ out.inp = o.inp ∧
+        out.ctl = o.ctl ∧ out.env.priv = o.env.priv) := by
+  unfold waitAddEnv at ho
+  refine ⟨fun v hv => ?_, fun hc => ?_⟩
+  · simp [«urcu_wait_add», block, exec.eq_2, exec.eq_13, exec.eq_12, evalArgs, eval, asLoc, hq, hn, bind, Except.bind, ho, hv,
+      setDst, Env.setVar]
+  · rcases hc with hc | hc <;>
+      simp [«urcu_wait_add», block, exec.eq_2, exec.eq_13, exec.eq_12, evalArgs, eval, asLoc, hq, hn, bind, Except.bind, ho, hc]
+
+/-! ## `urcu_wake_all_waiters(waiters)`: one iteration of its loop
+
+`for each node of the stack (cds_wfs_for_each_blocking_safe): if (!(load(node->state) & RUNNING)) urcu_adaptative_wake_up(node)`.
+Proved here for ONE iteration with current node `N` (`_t1 = N`, the iteration variable of the translated loop): its events
+are those of the call `_cds_wfs_next_blocking(N)` (stack traversal: the wfstack model's business, kept opaque: `oN`)
+followed by a run of the LEADER of node `N`'s wait-node instance: the pre-check load of `N->state` (silent at `l0`, like
+the assertion's load), then either nothing (RUNNING set: `continue`, the leader of that node never starts – this is how
+the grace-period leader skips its own node) or the whole `urcu_adaptative_wake_up(N)` run, `l0 → ldone`.
+That every queued node is visited exactly once is a property of the stack traversal, not stated here. -/
+
+def Stmt.loopBody : Stmt → Stmt
+  | .loop b => b
+  | s => s
+
+/-- the body of the loop, and the call `_cds_wfs_next_blocking(iter)` in it -/
+def wakeAllBody : Stmt := Stmt.loopBody (Stmt.drop 2 «urcu_wake_all_waiters»)
+def wakeAllNext : Stmt := Stmt.hd (Stmt.drop 2 wakeAllBody)
+
+/-- a completed call leaves the caller's locals other than the destination unchanged -/
+theorem call_vars (fuel : Nat) (d : String) (ps : List String) (args : List Expr) (body : Stmt) (env : Env)
+    (inp : List Val) (o : Out) (h : exec fuel (.call (some d) ps args body) env inp = .ok o) (hn : o.ctl = .normal) :
+    ∀ x, x ≠ d → o.env.vars x = env.vars x := by
+  rw [exec.eq_13] at h
+  simp only [bind, Except.bind] at h
+  split at h
+  · simp at h
+  · split at h
+    · simp at h
+    · split at h
+      · simp at h
+      · rename_i o1 _
+        split at h <;> (try (simp at h; done)) <;> (simp only [Except.ok.injEq] at h; subst h) <;> intro x hx <;>
+          simp_all [setDst, Env.setVar]
+
+/-- `oN` = the run of the call `_cds_wfs_next_blocking(N)`; `rest` = what follows it in the iteration -/
+def WakeIterPost (N : Loc) (oN out : Out) : Prop :=
+  ∃ rest, out.events = oN.events ++ rest ∧
+    (rest.all noAbort = true →
+      ∃ pc', acceptS (absEvL (.field N "state")) Wn.kstep .l0 rest = some pc' ∧
+        (out.ctl = .normal → pc' = .ldone) ∧ (out.ctl = .cont → pc' = .l0))
+
+set_option hygiene false in
+macro "wa_leaf" : tactic => `(tactic| (
+  fx_exec [band_nat_two, band_neg, band_ptr] <;>
+  (try (intro hout; subst hout)) <;>
+  (try (unfold WakeIterPost; first | refine ⟨_, rfl, ?_⟩ | refine ⟨[], by simp, ?_⟩)) <;> (try wn_abs []) <;>
+  (try (intros; simp_all; done))))
+
+theorem src_wake_all_iteration (fuel : Nat) (env : Env) (inp : List Val) (N : Loc)
+    (h1 : env.vars "_t1" = some (.ptr N)) :
+    ∀ out, exec fuel wakeAllBody env inp = .ok out →
+      ∃ oN, exec fuel wakeAllNext (env.setVar "iter" (.ptr N)) inp = .ok oN ∧ WakeIterPost N oN out := by
+  have hsplit : wakeAllBody = .seq _ (.seq _ (.seq wakeAllNext (Stmt.drop 3 wakeAllBody))) := rfl
+  have hR : Stmt.drop 3 wakeAllBody = .seq _ (.seq _ (.seq _ (.seq _ (.seq _ _)))) := rfl
+  intro out
+  rw [hsplit]
+  clear hsplit
+  generalize hRR : Stmt.drop 3 wakeAllBody = R at hR
+  clear hRR
+  fx_exec0 [h1]
+  generalize hN : exec fuel wakeAllNext _ _ = XN
+  cases XN with
+  | error e => intro h; cases h
+  | ok oN =>
+    intro hout
+    refine ⟨oN, rfl, ?_⟩
+    have hcall : wakeAllNext = .call (some "_t4") _ _ _ := rfl
+    rw [hcall] at hN
+    have hv := call_vars fuel _ _ _ _ _ _ oN hN
+    clear hN hcall
+    obtain ⟨evsN, eN, inp1, cN⟩ := oN
+    simp only at hv hout ⊢
+    by_cases hc : cN = .normal
+    · subst hc
+      have hIter : eN.vars "iter" = some (.ptr N) := by rw [hv rfl "iter" (by decide)]; simp
+      clear hv
+      subst hR
+      revert hout
+      cases h4 : eN.vars "_t4" with
+      | none => fx_exec []
+      | some nx =>
+        ld_cases (wa_leaf) (
+          by_cases hm : m &&& 2 = 0
+          · fx_exec [band_nat_two]
+            generalize hK : exec fuel «urcu_adaptative_wake_up» _ _ = XK
+            cases XK with
+            | error e => simp
+            | ok oK =>
+              have hP := src_adaptative_wake_up fuel _ r1 N (by simp [bindParams]) oK hK
+              obtain ⟨-, hctl, hacc⟩ := hP
+              rcases hctl with hk | hk <;> simp only [hk] <;> intro hout <;> cases hout <;> unfold WakeIterPost <;>
+                refine ⟨_, rfl, ?_⟩ <;> intro hok <;>
+                simp only [List.all_cons, Bool.and_eq_true] at hok <;>
+                obtain ⟨pc', ha, hp⟩ := hacc hok.2 <;>
+                refine ⟨pc', by wn_abs [ha], ?_, ?_⟩ <;> simp_all
+          · wa_leaf)
+    · clear hv
+      revert hout
+      cases cN <;> (try (exact absurd rfl hc)) <;> fx_exec0 [] <;> intro hout <;> subst hout <;>
+        exact ⟨[], by simp, fun _ => ⟨.l0, rfl, by simp, by simp⟩⟩
+
 end UrcuVerif.Src.Futex
